@@ -381,4 +381,96 @@ theorem parseType_fixed_noCrash (s : Str) : NoCrash (parseType true s) := by
   have := (parseType_known true s x hx).2
   cases this
 
+/-! ### output size of the fixed apacheToCassandraType -/
+
+theorem replaceAll_len (old new : Str) (k : Nat) (hk : 1 ≤ k) (_hold : 1 ≤ old.length) (h : new.length ≤ k * old.length) :
+    ∀ (n : Nat) (s : Str), (replaceAll old new n s).length ≤ k * s.length := by
+  intro n
+  induction n with
+  | zero => intro s; simp [replaceAll]; exact Nat.le_mul_of_pos_left _ (by omega)
+  | succ n ih =>
+    intro s
+    cases s with
+    | nil => simp [replaceAll]
+    | cons c r =>
+      unfold replaceAll
+      split
+      · rename_i hp
+        have hl := (List.isPrefixOf_iff_prefix.mp hp).length_le
+        have := ih ((c :: r).drop old.length)
+        simp only [List.length_append, List.length_drop] at *
+        have h2 : k * ((c :: r).length - old.length) + k * old.length = k * (c :: r).length := by
+          rw [← Nat.mul_add]; congr 1; omega
+        omega
+      · have := ih r
+        simp only [List.length_cons]
+        have : k * (r.length + 1) = k * r.length + k := by rw [Nat.mul_add]; simp
+        omega
+
+theorem replace_len (s old new : Str) (k : Nat) (hk : 1 ≤ k) (h : new.length ≤ k * old.length) :
+    (replace s old new).length ≤ k * s.length := by
+  unfold replace
+  split
+  · exact Nat.le_mul_of_pos_left _ (by omega)
+  · rename_i hne
+    have : 1 ≤ old.length := by
+      cases old with
+      | nil => simp at hne
+      | cons a b => simp
+    exact replaceAll_len old new k hk this h _ s
+
+theorem lookup_mem (tbl : List (Str × Nat)) (s : Str) (v : Nat) (h : lookup tbl s = some v) : v ∈ tbl.map (·.2) := by
+  induction tbl with
+  | nil => simp [lookup] at h
+  | cons p r ih =>
+    obtain ⟨k, w⟩ := p
+    unfold lookup at h
+    split at h
+    · cases h; simp
+    · simp; right; simpa using ih h
+
+theorem typeName_apache_len (x : Str) : (typeName (apacheType x)).length ≤ 9 := by
+  have hall : ∀ v ∈ (0 :: apacheTable.map (·.2)), (typeName v).length ≤ 9 := by decide
+  unfold apacheType
+  cases h : lookup apacheTable (trimPrefix kAPACHE x) with
+  | none => exact hall 0 (List.mem_cons_self ..)
+  | some v => exact hall v (List.mem_cons_of_mem _ (lookup_mem _ _ _ h))
+
+theorem translateFields_len (s cur : Str) : (translateFields s cur).length ≤ 9 * (s.length + cur.length) := by
+  induction s generalizing cur with
+  | nil =>
+    unfold translateFields
+    split
+    · simp
+    · rename_i hne
+      have := typeName_apache_len cur.reverse
+      cases cur with
+      | nil => simp at hne
+      | cons a b => simp at *; omega
+  | cons c r ih =>
+    unfold translateFields
+    split
+    · have h0 := ih []
+      split
+      · simp at *; omega
+      · rename_i hne
+        have := typeName_apache_len cur.reverse
+        cases cur with
+        | nil => simp at hne
+        | cons a b => simp at *; omega
+    · have := ih (c :: cur)
+      simp at *; omega
+
+/-- with props/C05.fix-8.diff the translation of a Java class string is at most 18 times its length -/
+theorem apacheFixed_len (t : Str) : (apacheToCassandraTypeFx true t).length ≤ 18 * t.length := by
+  unfold apacheToCassandraTypeFx
+  simp only [if_true]
+  have h1 := replace_len t kAPACHE [] 1 (by omega) (by simp)
+  have h2 := replace_len (replace t kAPACHE []) [40] [60] 1 (by omega) (by simp)
+  have h3 := replace_len (replace (replace t kAPACHE []) [40] [60]) [41] [62] 1 (by omega) (by simp)
+  have h4 := translateFields_len (replace (replace (replace t kAPACHE []) [40] [60]) [41] [62]) []
+  have h5 := replace_len (translateFields (replace (replace (replace t kAPACHE []) [40] [60]) [41] [62]) []) [44] kcommaSp 2 (by omega) (by decide)
+  simp at *
+  omega
+
 end C05TypeStr
